@@ -5,7 +5,7 @@ import e2e, tablegen
 import c04gen as G
 
 PROP = "C04"
-HEADER = "From Coq Require Import List Bool Arith.\nImport ListNotations.\nFrom DV Require Import Lifetimes.Model Lifetimes.Check Lifetimes.Struct Lifetimes.SpecExec."
+HEADER = "From Coq Require Import List Bool Arith.\nImport ListNotations.\nFrom DV Require Import Lifetimes.Model Lifetimes.Check Lifetimes.Struct Lifetimes.SpecExec Lifetimes.Elision."
 KNOWN_MSG = ("should explicitly include this lifetime bound", "Found elided lifetime in return type")
 
 
@@ -90,6 +90,27 @@ def rustc_crosscheck(ctx, bridges, goals):
     return checked, static_bridged
 
 
+def rustc_elision_check(ctx, bridges):
+    """Is rust_elision_target (the reading of Rust's elision rule the generator uses to choose which return lifetimes may be left
+    out) what rustc does?  Every accepted method with an elided spelling is compiled as plain Rust with a body that produces the
+    explicitly spelled return type."""
+    d = os.path.join(BUILD, "c04_rustc"); os.makedirs(d, exist_ok=True)
+    n = 0
+    for bi, (D, methods) in enumerate(bridges):
+        probes = [G.plain_elision_probe(D, m) for m in methods if any(m.get("ret_elide") or []) or m.get("omit_gen")]
+        if not probes:
+            continue
+        n += len(probes)
+        src = ("#![allow(warnings)]\n" + G.plain_defs(D) + "\n" + "\n".join(probes) + "\n").replace("DiplomatStr", "str")
+        path = os.path.join(d, f"e{bi}.rs")
+        open(path, "w").write(src)
+        p = sh(["rustc", "--edition", "2021", "--crate-type", "lib", "--emit", "metadata", "--error-format", "short", "-o",
+                os.path.join(d, f"e{bi}.rmeta"), path], timeout=300)
+        if p.returncode != 0:
+            raise MachineryError("C04: rustc does not read the elided spelling of a generated method the way c04gen.rust_elision_target does\n" + p.stderr[:1500] + "\n" + src[-1500:])
+    return n
+
+
 def check(ctx, replay=None):
     build_harness()
     tablegen.main()
@@ -110,7 +131,7 @@ def check(ctx, replay=None):
         bridges.append((D, ms + G.fixed_methods(D)))
     goals, viol, samples = [], 0, []
     stats = {"methods": 0, "accepted": 0, "rejected": 0, "rejected_defs": 0, "skipped_bridges": 0, "keys": 0, "edges": 0, "struct_edges": 0,
-             "optional_struct_edges": 0, "multi_lifetime_keys": 0, "transitive_keys": 0, "panicky": len(panicky), "crashing_methods": 0, "unusable_bridges": 0}
+             "optional_struct_edges": 0, "elided_return_positions": 0, "omitted_generic_lists": 0, "anonymous_lifetimes": 0, "multi_lifetime_keys": 0, "transitive_keys": 0, "panicky": len(panicky), "crashing_methods": 0, "unusable_bridges": 0}
     nontriv = set()
 
     def violate(key, obj, found=True):
@@ -194,6 +215,11 @@ def check(ctx, replay=None):
                 violate("direct:no-map", {"what": "no borrow map for " + m["name"], "lib_rs": minimal_source(D2, m)}); continue
             obs = obs_map(D2, m, rec)
             goals.append(f"agree_map {G.c_sig(m)} {G.c_map(obs)}")
+            # what elision.rs made of the written lifetimes (Lifetimes/Elision.v): every lifetime of self, parameters and output
+            goals.append(f"agree_lowered {G.c_ssig(m)} {G.c_lowered(m, rec['lowered'])}")
+            stats["elided_return_positions"] += sum(len(x) for x in (m.get("ret_elide") or []))
+            stats["omitted_generic_lists"] += len(m.get("omit_gen", ()))
+            stats["anonymous_lifetimes"] += rec["lowered"]["num"] - m["n"]
             spec = G.spec_map(D2, m)
             reach_env = G.m_env(m)
             if [r for r, _, _ in obs] != [r for r, _ in spec]:
@@ -237,6 +263,7 @@ def check(ctx, replay=None):
         raise MachineryError(f"C04: {stats['unusable_bridges']} of {nb} generated bridges were not usable (unexpected lowering errors)")
     # ---- the reading of Rust's rules against rustc itself
     stats["rustc_pairs_checked"], stats["rustc_pairs_static_bridged"] = rustc_crosscheck(ctx, [(D, ms) for D, ms in accepted_bridges][: (3 if ctx.quick() else 100)], goals)
+    stats["rustc_elision_probes"] = rustc_elision_check(ctx, accepted_bridges[: (6 if ctx.quick() else 100)])
     # ---- what the managed backends attach
     import c04_backends
     bstats = c04_backends.run(ctx, accepted_bridges[: (3 if ctx.quick() else 60)], violate, goals)
@@ -246,7 +273,7 @@ def check(ctx, replay=None):
     fails = run_shards(PROP, HEADER, goals) if goals else []
     if fails and not ctx.violations:
         ctx.violation("corr:borrow-model", {"broken": "correspondence goal " + goals[fails[0]][:900] + " : Lifetimes/Model.v no longer reproduces the "
-                      "implementation's validation / borrow_map on this input (theorems: C04_borrow_edges_exact, C04_all_longer_is_closure)"}, False)
+                      "implementation's validation / borrow_map, or Lifetimes/Elision.v its lowering of written lifetimes, on this input (theorems: C04_borrow_edges_exact, C04_all_longer_is_closure, C04_elided_return_edges)"}, False)
     return batch_evidence(
         ctx, PROP, phase, goals, fails, stats["methods"], len(nontriv),
         "%d generated bridges (%d methods: up to 4 (sometimes 6) named lifetimes, random declared bounds in impl/method generics and where clauses, "
